@@ -137,6 +137,11 @@ class Ctx(object):
         self.classes[cls] = self.classes.get(cls, 0) + n
 
     def monitor(self, name, fired=False, n=1):
+        # the stall guard times ONE operation, not a whole loop: workloads that evaluate monitors in long loops without
+        # closing a case (exhaustive enumerations) re-arm it here - every 16th evaluation keeps the syscall cost negligible
+        self._mon_calls = getattr(self, "_mon_calls", 0) + 1
+        if self._mon_calls & 15 == 0 and not self._stall_pending:
+            self.arm_stall_guard()
         m = self.monitors.get(name)
         if m is None:
             m = self.monitors[name] = {"evals": 0, "fired": 0}
